@@ -4,7 +4,7 @@ import json, sys
 import glob, os
 pid = sys.argv[1]
 rnd = int(sys.argv[2]) if len(sys.argv) > 2 else 1          # round 1: A/B, round 2: C/D, round 3: E/F
-L1, L2 = "ACEGIKMOQ"[rnd - 1], "BDFHJLNPR"[rnd - 1]
+L1, L2 = "ACEGIKMOQS"[rnd - 1], "BDFHJLNPRT"[rnd - 1]
 wt = ("/tmp/seed_%s" if rnd == 1 else ("/tmp/seed%d_%%s" if rnd < 4 else "/root/scratch/seed%d_%%s") % rnd) % pid
 used = ""
 if rnd > 1:
